@@ -17,6 +17,7 @@
 // deep : see random_deep (encoded simplex indices beyond 64 bits; no oracle, the forms must agree).
 // An input whose Rips complex (dimension <= dim_max+1, after truncation) has more than max_simplices simplices gets a
 // smaller dim_max, so that TLC recomputes every event in well under a second.
+#include <map>
 #include "ripser_common.hpp"
 
 using namespace rips;
@@ -271,15 +272,54 @@ static Input random_wide(Rng& g, long limit) {
   return in;
 }
 
+// linkage: 100-220 points, a hierarchical (dendrogram-like) dissimilarity with small perturbations, dim_max = 0, no
+// threshold.  Too many simplices for the trace specification to list; dimension 0 is judged by the harness through
+// the theorem ThSingleLinkage of RipsPersistence.tla (checked by TLC on every bounded case): the finite deaths are the
+// weights Kruskal's algorithm keeps, the essential classes are the components.  (The union-find of the engine only
+// reaches depth 4 and more from 16 vertices on, with balanced merges.)
+static Input random_linkage(Rng& g) {
+  Input in;
+  in.dense = true;
+  in.n = rnd(g, 100, 220);
+  in.dmax = 0;
+  in.t = -1;
+  in.p = pick<unsigned>(g, {2u, 3u});
+  std::vector<int> label(static_cast<std::size_t>(in.n));
+  for (int i = 0; i < in.n; ++i) label[static_cast<std::size_t>(i)] = i;
+  for (int i = in.n - 1; i > 0; --i) std::swap(label[static_cast<std::size_t>(i)], label[static_cast<std::size_t>(rnd(g, 0, i))]);
+  all_pairs(in, [&](int a, int b) {
+    int x = label[static_cast<std::size_t>(a)] ^ label[static_cast<std::size_t>(b)], level = 0;
+    while (x > 0) { x >>= 1; ++level; }
+    return static_cast<std::int64_t>(8 * level + rnd(g, 0, 3));
+  });
+  return in;
+}
+
+// expected dimension 0 of a dense input without threshold: MSTWeights (zero weights give intervals of length 0, dropped)
+static std::vector<std::int64_t> mst_weights(const Input& in) {
+  std::vector<Edge> es = in.edges;
+  std::stable_sort(es.begin(), es.end(), [](const Edge& x, const Edge& y) { return x.w < y.w; });
+  std::vector<int> comp(static_cast<std::size_t>(in.n));
+  for (int i = 0; i < in.n; ++i) comp[static_cast<std::size_t>(i)] = i;
+  std::vector<std::int64_t> kept;
+  for (auto& e : es) {
+    int ca = comp[static_cast<std::size_t>(e.a)], cb = comp[static_cast<std::size_t>(e.b)];
+    if (ca == cb) continue;
+    for (auto& c : comp) if (c == cb) c = ca;   // (no ranks, no path compression: nothing in common with the engine)
+    kept.push_back(e.w);
+  }
+  return kept;
+}
+
 static void record_event(Rng& g, vf::Trace& tr, int kind, long limit) {
-  Input in = kind == 0 ? random_dense(g, limit) : kind == 1 ? random_sparse(g, limit) : kind == 2 ? random_boundary(g) : kind == 3 ? random_deep(g, limit) : random_wide(g, limit);
-  isolate_all() = kind >= 3;   // deep, wide: these inputs crash the fallback 128-bit integer build (findings/C11.json)
+  Input in = kind == 0 ? random_dense(g, limit) : kind == 1 ? random_sparse(g, limit) : kind == 2 ? random_boundary(g) : kind == 3 ? random_deep(g, limit) : kind == 5 ? random_linkage(g) : random_wide(g, limit);
+  isolate_all() = kind == 3 || kind == 4;   // deep, wide: these inputs crash the fallback 128-bit integer build (findings/C11.json)
   bj::object e = jinput(in);
   e["op"] = "ripser";
   e["value"] = build_name();
   const long nsimp = count_cliques(in, in.dense ? eff_threshold(in) : -1, in.dmax + 1, 1000000);
   e["nsimp"] = nsimp;
-  e["oracle"] = kind != 3 || nsimp <= limit;   // false: too large for the trace specification to recompute the diagram
+  e["oracle"] = kind == 5 ? false : (kind != 3 || nsimp <= limit);   // false: too large for the trace specification to recompute the diagram
   bj::array runs;
   long f = 0;
   for (auto& form : in.dense ? dense_forms() : sparse_forms()) {
@@ -291,6 +331,15 @@ static void record_event(Rng& g, vf::Trace& tr, int kind, long limit) {
     const bool none_as_max = ((tr.n + f) & 1) != 0;
     vf::crash_ctx().where = std::string(build_name()) + ":" + form + " " + bj::serialize(jinput(in));
     Run r = needs_isolation(form, in) ? run_form_isolated(form, in, none_as_max) : run_form(form, in, none_as_max);
+    if (kind == 5 && r.exception.empty()) {
+      std::map<std::int64_t, long> want, got;
+      long ess = 0;
+      std::vector<std::int64_t> mst = mst_weights(in);
+      for (auto w : mst) if (w > 0) want[w]++;
+      for (auto& b : r.out) if (b.dim == 0) { if (b.d == INF_CODE) ++ess; else got[b.d]++; }
+      if (want != got || ess != in.n - static_cast<long>(mst.size()))
+        r.problems.push_back("dimension 0 is not single linkage (ThSingleLinkage: the finite deaths are the weights Kruskal keeps)");
+    }
     bj::object ro{{"form", form}, {"enc", encoding_of(form, in)}, {"dims", vf::jarr(r.dims)}, {"out", jbars(r.out)}};
     if (!r.exception.empty()) ro["exception"] = r.exception;
     if (!r.problems.empty()) ro["problems"] = vf::jarr(r.problems);
@@ -309,7 +358,7 @@ int record_main(int argc, char** argv) {
   Rng g(std::strtoull(argv[2], nullptr, 10));
   const long n = std::atol(argv[3]);
   const std::string ks = argv[4];
-  const int kind = ks == "dense" ? 0 : ks == "sparse" ? 1 : ks == "boundary" ? 2 : ks == "deep" ? 3 : 4;
+  const int kind = ks == "dense" ? 0 : ks == "sparse" ? 1 : ks == "boundary" ? 2 : ks == "deep" ? 3 : ks == "linkage" ? 5 : 4;
   const long limit = std::atol(argv[5]);
   vf::Trace tr(argv[1]);
   vf::crash_ctx().out = tr.f;
